@@ -35,6 +35,7 @@ import (
 	"github.com/element-of-surprise/coercion/plugins"
 	"github.com/element-of-surprise/coercion/workflow"
 	werrors "github.com/element-of-surprise/coercion/workflow/errors"
+	"github.com/element-of-surprise/coercion/workflow/storage"
 	"github.com/element-of-surprise/coercion/workflow/storage/sqlite"
 	"github.com/element-of-surprise/coercion/workflow/utils/walk"
 	"github.com/google/uuid"
@@ -77,6 +78,37 @@ type BurstSpec struct {
 	Others   []string `json:"others"`    // wait plan status
 	GateOpen bool     `json:"gate_open"` // false: the gate opens only after every Start has returned
 	ViaAPI   bool     `json:"via_api"`   // the target is submitted with Workstream.Submit instead of vault.Create
+	// HeldRead: the "stale read" family. The first store.Read(id) - the one inside the first Start call, B - is
+	// held by a gate in a vault wrapper; the other Start calls are made while B sits in that Read; the gate opens
+	// when they have returned and the plan has finished, or after HoldMs, whichever comes first; then one more
+	// Start is made. b_starts = B, the others, the last one.
+	HeldRead bool `json:"held_read,omitempty"`
+	HoldMs   int  `json:"hold_ms,omitempty"`
+}
+
+// heldVault is a storage.Vault (the unexported marker method is promoted from the embedded value) whose Read
+// of an armed id is answered at once but delivered, once, only when release is called (a slow store).
+type heldVault struct {
+	storage.Vault
+	mu      sync.Mutex
+	armed   map[uuid.UUID]bool
+	held    chan struct{}
+	release chan struct{}
+}
+
+func (h *heldVault) Read(ctx context.Context, id uuid.UUID) (*workflow.Plan, error) {
+	h.mu.Lock()
+	hold := h.armed[id]
+	if hold {
+		delete(h.armed, id)
+	}
+	h.mu.Unlock()
+	p, err := h.Vault.Read(ctx, id) // the store answers now ...
+	if hold {
+		close(h.held)
+		<-h.release // ... but the answer reaches the caller late
+	}
+	return p, err
 }
 
 type Spec struct {
@@ -111,6 +143,7 @@ type world struct {
 	recs  map[string]*planRec // by nonce
 	set   *hplug.Set
 	vault *sqlite.Vault
+	hv    *heldVault
 	ws    *coercion.Workstream
 	ids   []*planRec // created ids in creation order
 	r     *core.Rand
@@ -470,7 +503,12 @@ func newWorld(spec *Spec) (*world, error) {
 	if spec.SetMax {
 		opts = append(opts, coercion.WithMaxSubmit(time.Duration(spec.MaxMs)*time.Millisecond))
 	}
-	ws, err := coercion.New(ctx, w.set.Reg, v, opts...)
+	var store storage.Vault = v
+	if spec.Burst != nil && spec.Burst.HeldRead {
+		w.hv = &heldVault{Vault: v, armed: map[uuid.UUID]bool{}, held: make(chan struct{}), release: make(chan struct{})}
+		store = w.hv
+	}
+	ws, err := coercion.New(ctx, w.set.Reg, store, opts...)
 	if err != nil {
 		return nil, err
 	}
@@ -548,6 +586,68 @@ func childMain() {
 			id = rec.id
 		}
 		burstStartable := b.Target != nil && (b.ViaAPI || specStartable(b.Target, spec.MaxMs, modelNow))
+		if b.HeldRead {
+			say("READY")
+			say("B 0")
+			w.hv.mu.Lock()
+			w.hv.armed[id] = true
+			w.hv.mu.Unlock()
+			n := b.Starts
+			starts := make([]string, n+1)
+			var wgB, wgA sync.WaitGroup
+			wgB.Add(1)
+			go func() { defer wgB.Done(); starts[0] = errClass(w.ws.Start(context.Background(), id)) }()
+			select {
+			case <-w.hv.held: // B is inside store.Read
+			case <-time.After(5 * time.Second):
+			}
+			aDone := make(chan struct{})
+			for i := 1; i < n; i++ {
+				wgA.Add(1)
+				go func(i int) { defer wgA.Done(); starts[i] = errClass(w.ws.Start(context.Background(), id)) }(i)
+			}
+			go func() { wgA.Wait(); close(aDone) }()
+			deadline := time.After(time.Duration(b.HoldMs) * time.Millisecond)
+		hold:
+			for {
+				select {
+				case <-deadline:
+					break hold
+				case <-aDone:
+					// the others have returned: if one of them started the plan, let that execution finish
+					// (terminal status durable, then a moment for the goroutine's cleanup) before B goes on
+					p, err := w.vault.Read(context.Background(), id)
+					if err == nil && p.State != nil && w.isTerminalClass(statusClass(p.State.Status)) {
+						time.Sleep(30 * time.Millisecond)
+						break hold
+					}
+					select {
+					case <-deadline:
+						break hold
+					case <-time.After(time.Millisecond):
+					}
+				}
+			}
+			close(w.hv.release)
+			wgB.Wait()
+			wgA.Wait()
+			say("S %s", strings.Join(starts[:n], ","))
+			ctx, cancel := context.WithTimeout(context.Background(), 20*time.Second)
+			p, err := w.ws.Wait(ctx, id)
+			final := planClass(p, err)
+			cancel()
+			starts[n] = errClass(w.ws.Start(context.Background(), id))
+			say("E 0 burst")
+			say("OPSDONE")
+			time.Sleep(grace)
+			ex := 0
+			if rec != nil {
+				ex = rec.maxCalls()
+			}
+			say("R %s||%d|%s", strings.Join(starts, ","), ex, final)
+			say("DONE")
+			return
+		}
 		say("READY")
 		say("B 0")
 		starts := make([]string, b.Starts)
@@ -1021,6 +1121,19 @@ func genBurst(root *core.Rand, i int) *Spec {
 	return s
 }
 
+// genStale: the held-read family (see BurstSpec.HeldRead).
+func genStale(root *core.Rand, i int) *Spec {
+	r := root.Fork(uint64(i) + 2_000_000)
+	s := &Spec{Kind: "burst", Index: i, Seed: core.Seed(), MaxMs: defaultMax, GraceMs: 80, ShortMs: 200, StatusMs: 2, IdleMs: 3000, Family: "stale"}
+	b := &BurstSpec{Starts: 1 + r.Range(1, 3), GateOpen: true, HeldRead: true, HoldMs: 300}
+	kinds := preKinds(s.MaxMs)
+	ps := kinds[r.Intn(3)]
+	b.Target = &ps
+	b.ViaAPI = r.Chance(0.6)
+	s.Burst = b
+	return s
+}
+
 // ---------------------------------------------------------------------------------------------- cases
 
 func histCase(s *Spec, o childOut) core.Case {
@@ -1164,12 +1277,17 @@ func burstCase(s *Spec, o childOut) core.Case {
 			what = "submitted"
 		}
 	}
+	idp := "burst"
+	if b.HeldRead {
+		what = "held-read/" + what
+		idp = "stale"
+	}
 	term := core.Sprintf("(CBurst {| b_max := %s; b_now := %s; b_pl := %s; b_starts := %s; b_others := %s; b_execs := %d; b_final := %s |})",
 		core.Z(s.MaxMs), core.Z(modelNow), plt, tl(starts), tl(others), execs, rterm(final))
 	sorted := append([]string{}, starts...)
 	sort.Strings(sorted)
 	return core.Case{
-		ID: fmt.Sprintf("burst-%d", s.Index), Kind: "burst", Coq: term, Nontrivial: b.Target != nil && b.Starts >= 2,
+		ID: fmt.Sprintf("%s-%d", idp, s.Index), Kind: "burst", Coq: term, Nontrivial: b.Target != nil && b.Starts >= 2,
 		Hash: core.Hash(what, strconv.Itoa(b.Starts), strings.Join(b.Others, ","), core.B(b.GateOpen), strings.Join(sorted, ","), final),
 		Dist: map[string]any{"target": what, "starts": b.Starts, "others": b.Others, "gate_open": b.GateOpen, "wall_ms": o.wall.Milliseconds(),
 			"abnormal": o.abnorm},
@@ -1183,6 +1301,7 @@ func main() {
 	child := flag.Bool("child", false, "run one spec read from stdin")
 	n := flag.Int("n", 300, "number of sequential histories")
 	nb := flag.Int("bursts", 80, "number of concurrent bursts")
+	ns := flag.Int("stale", 10, "number of held-read cases (one Start sits in store.Read while others run)")
 	nt := flag.Int("ticks", 4, "number of histories in which time really passes (maxSubmit 6 s)")
 	maxLen := flag.Int("maxlen", 12, "maximum number of calls of a history (before the quiescing calls)")
 	par := flag.Int("par", 12, "children running at the same time")
@@ -1226,6 +1345,9 @@ func main() {
 	} else {
 		for i := 0; i < *nt; i++ {
 			specs = append(specs, genHist(root, 500_000+*base+i, *maxLen, true)) // first: they take longest
+		}
+		for i := 0; i < *ns; i++ {
+			specs = append(specs, genStale(root, *base+i))
 		}
 		for i := 0; i < *n; i++ {
 			specs = append(specs, genHist(root, *base+i, *maxLen, false))
